@@ -1,6 +1,8 @@
 (* C10 correspondence: how one observed implementation result is compared with the model.
    Used by the generated run/C10/cases_*.v files.  Not part of any theorem. *)
 From Hy Require Import lib.Harness model.C10_Negotiate model.C10_Reuse.
+From Hy Require Import model.C10_Wire.
+From Hy Require corr.C11_Corr.
 From Coq Require Import ZArith.
 Local Open Scope N_scope.
 
@@ -40,7 +42,16 @@ Inductive case :=
    server with the given Hysteria-CC-RX values; before a handshake the caller may write new limits into the object.
    Observed per handshake: HandshakeInfo.Tx, the installed controller, the Hysteria-CC-RX the client sent, and
    the object's MaxTx / MaxRx right after NewClient returned *)
-| CSeq (c : client_cfg) (steps : list seq_step) (obs : list (N * installed * list byte * (N * N))).
+| CSeq (c : client_cfg) (steps : list seq_step) (obs : list (N * installed * list byte * (N * N)))
+(* C10 o C11: a complete handshake (as CHs) with DisableLossCompensation configured on both sides; additionally the
+   disableLossCompensation flag read from each installed sender, and for each side that installed a Brutal sender a
+   recorded call history (the C11 harness's step script, observation count and digest) of a sender constructed by
+   brutal.NewBrutalSender with the rate and flag read from the installed object.  The model's side: the sender C10's
+   model says was installed (sender_of) replayed by C11's model must produce the same observations, and the composed
+   bound (windows_ok, with the model's REPORTED rate) must hold on the recorded sends. *)
+| CWire (s : server_cfg) (c : client_cfg) (sdis cdis : bool) (auth_tx connect_tx : N) (si : installed)
+        (info_tx : N) (ci : installed) (s_dis_obs c_dis_obs : bool)
+        (sruns cruns : list (list C11_Corr.cstep * Z * Z)).
 
 Definition inst_eqb (a b : installed) : bool :=
   match a, b with
@@ -73,6 +84,39 @@ Definition seq_eqb (m : client_cfg * client_out * list (list byte)) (o : N * ins
   (co_info_tx co =? itx) && inst_eqb (co_installed co) ci && hdr1_eqb qh rh &&
   (c_max_tx c2 =? tx_after) && (c_max_rx c2 =? rx_after).
 
+(* short names for the generated files *)
+Definition wSn := C11_Corr.Sn.
+Definition wEv := C11_Corr.Ev.
+Definition wMd := C11_Corr.Md.
+Definition wWt := C11_Corr.Wt.
+Definition wRt := C11_Corr.Rt.
+
+Definition bop_of (st : C11_Corr.cstep) : list bop :=
+  match st with
+  | C11_Corr.Sn t size => [OSent t size]
+  | C11_Corr.Ev t a l => [OEvent t a l]
+  | C11_Corr.Md v => [OSetMds v]
+  | _ => []
+  end.
+
+Definition max_mds (steps : list C11_Corr.cstep) : Z :=
+  fold_left (fun m st => match st with C11_Corr.Md v => Z.max m v | _ => m end) steps InitialPacketSize.
+
+(* one recorded history against the sender the model installed, reported = the model's reported rate *)
+Definition wire_run_ok (i : installed) (dis dis_obs : bool) (reported : N) (run : list C11_Corr.cstep * Z * Z) : bool :=
+  let '(steps, nobs, dig) := run in
+  match sender_of i dis with
+  | None => false
+  | Some b0 =>
+      Bool.eqb (b_disable b0) dis_obs &&
+      (let '(n, h) := C11_Corr.run_dig (C11_Corr.mkR b0 0 0) steps 0 0 in (n =? nobs)%Z && (h =? dig)%Z) &&
+      (if (65536 <=? reported) && (reported <=? 1099511627776)
+       then windows_ok (comp_rate reported) (burst_bound (comp_rate reported) (max_mds steps)) (sends_of (flat_map bop_of steps))
+       else true)
+  end.
+
+Definition is_brutal (i : installed) : bool := match i with IBrutal b => (0 <? b)%Z | _ => false end.
+
 Definition check (c : case) : bool :=
   match c with
   | CPReq vals rx => req_from_header vals =? rx
@@ -103,6 +147,15 @@ Definition check (c : case) : bool :=
       (let (st, rps) := serve_run s conn_init rqs in
        all2 reply_eqb rps obs && N_list_eqb (cs_authcalls st) atxs && N_list_eqb (cs_connects st) ctxs)
   | CSeq c steps obs => all2 seq_eqb (client_seq c steps) obs
+  | CWire s c sdis cdis atx ctx si itx ci sdo cdo sruns cruns =>
+      server_cfg_ok s &&
+      (let '(so, co) := handshake s c in
+       (so_auth_tx so =? atx) && (so_connect_tx so =? ctx) && inst_eqb (so_installed so) si &&
+       (co_info_tx co =? itx) && inst_eqb (co_installed co) ci &&
+       Nat.eqb (length sruns) (if is_brutal (so_installed so) then 1 else 0) &&
+       Nat.eqb (length cruns) (if is_brutal (co_installed co) then 1 else 0) &&
+       forallb (wire_run_ok (so_installed so) sdis sdo (so_connect_tx so)) sruns &&
+       forallb (wire_run_ok (co_installed co) cdis cdo (co_info_tx co)) cruns)
   end.
 
 Definition mismatches (l : list case) : list nat := mism_from check 0 l.
